@@ -156,6 +156,34 @@ impl<'a> Read for ZipFileReader<'a> {
 }
 
 impl<'a> ZipFileReader<'a> {
+    /// Called when the decoder has reported end-of-stream.
+    ///
+    /// An AES entry's authentication code is verified by the read that consumes the last byte of
+    /// ciphertext, but a decompressor stops pulling input as soon as it sees the end of its own
+    /// stream. Read the rest of the ciphertext so that a successful end-of-file always means the
+    /// code has been checked.
+    #[cfg(feature = "aes-crypto")]
+    fn finish_crypto(&mut self) -> io::Result<()> {
+        let crypto_reader = match self {
+            #[cfg(any(
+                feature = "deflate",
+                feature = "deflate-miniz",
+                feature = "deflate-zlib"
+            ))]
+            ZipFileReader::Deflated(r) => r.get_mut().get_mut(),
+            #[cfg(feature = "bzip2")]
+            ZipFileReader::Bzip2(r) => r.get_mut().get_mut(),
+            #[cfg(feature = "zstd")]
+            ZipFileReader::Zstd(r) => r.get_mut().get_mut().get_mut(),
+            // stored data: the decoder's end-of-stream is the ciphertext's
+            _ => return Ok(()),
+        };
+        if let CryptoReader::Aes { reader, .. } = crypto_reader {
+            io::copy(reader, &mut io::sink())?;
+        }
+        Ok(())
+    }
+
     /// Consumes this decoder, returning the underlying reader.
     pub fn into_inner(self) -> io::Take<&'a mut dyn Read> {
         match self {
@@ -982,7 +1010,12 @@ impl<'a> ZipFile<'a> {
 
 impl<'a> Read for ZipFile<'a> {
     fn read(&mut self, buf: &mut [u8]) -> io::Result<usize> {
-        self.get_reader().read(buf)
+        let count = self.get_reader().read(buf)?;
+        #[cfg(feature = "aes-crypto")]
+        if count == 0 && !buf.is_empty() {
+            self.reader.finish_crypto()?;
+        }
+        Ok(count)
     }
 }
 
